@@ -66,7 +66,7 @@ def gen_plans(seed, tier, small=False):
         conns = [("P", "s:%s,r,|,s:%s,r,s:%s,r,c,e" % (hx(p1), hx(p1), hx(p1)), [r200, r200, r200, "EOF"], {"kinds": ["p", "p", "p"]}) for _ in range(T)]
         conns += [("P", "s:%s,|,r,c,e" % hx(p1), [r200, "EOF"], {"kinds": ["p"]})]
         conns.append(("S", "e", ["EOF"], {"kinds": []}))
-        plans.append((T, conns, False))
+        plans.append((T, conns, "noepoll"))       # (epoll mode with every worker busy can run into the recorded finding K14)
     # connections that end with a reset (RST) instead of a FIN: (a) while idle after an answered request; (b) while still waiting
     # in the queue behind a busy worker (one worker, a slow request on another connection in front). Either way the connection was
     # handed to request handling, so it is torn down exactly once (result either way; whether its request was still read is a race)
@@ -151,23 +151,44 @@ def run(pid):
             plan = "/".join("%s:%s" % (d, sc) for d, sc, _, _ in conns)
             for m in MODES:
                 # (a `late` plan in epoll mode would be the known finding K16: run it in serve mode instead, keeping groups of three)
-                lines.append("SERVE mode=%s threads=%d%s plan=%s" % ("serve" if (slowtd == "late" and m == "epoll") else m, threads, " late=1" if slowtd == "late" else " slowtd=1" if slowtd else "", plan))
+                lines.append("SERVE mode=%s threads=%d%s plan=%s" % ("serve" if (slowtd in ("late", "noepoll") and m == "epoll") else m, threads, " late=1" if slowtd == "late" else "" if slowtd == "noepoll" else " slowtd=1" if slowtd else "", plan))
                 meta.append((m, conns))
         impl = C.run_sharded(ctx["kimpl"], lines, shards=min(C.NCPU, 12))
+        # The scenarios run a dozen servers side by side and have deadlines (a response within 4 s, the end of a connection within
+        # 2.2 s): on an overloaded machine a deadline can pass although the server is right.  A group that deviates is therefore
+        # run once more, alone; only a deviation that shows again counts (a real defect reproduces, a missed deadline does not).
+        suspects = judge_all(o, pid, lines, meta, impl, record=False)
+        if suspects:
+            again = sorted({j for i in suspects for j in range(i - i % 3, i - i % 3 + 3)})
+            for j in again:
+                impl[j] = C.run_sharded(ctx["kimpl"], [lines[j]], shards=1)[0]
+            o.extra["scenarios_rerun_alone_after_a_deviation"] = len(again)
+        judge_all(o, pid, lines, meta, impl, record=True)
+    return run_
+
+
+def judge_all(o, pid, lines, meta, impl, record):
+    """evaluate every (plan, mode) line; returns the indices of deviating lines; violations are recorded only if `record`"""
+    bad = []
+    if True:
         for i in range(0, len(lines), 3):
             group = [parse(a) for a in impl[i:i + 3]]
             conns = meta[i][1]
             for k, (g, m) in enumerate(zip(group, MODES)):
-                o.evaluations += 1
                 c = lines[i + k]
-                o.count("mode=" + m)
-                o.count("conns=%d" % len(conns))
-                if len(conns) >= 3:
-                    o.nontrivial.add(c)
-                if len(o.samples) < 4 and i % 60 == 0 and k == 0:
-                    o.samples.append({"case": c[:300], "impl": impl[i + k][:300]})
+                if record:
+                    o.evaluations += 1
+                    o.count("mode=" + m)
+                    o.count("conns=%d" % len(conns))
+                    if len(conns) >= 3:
+                        o.nontrivial.add(c)
+                    if len(o.samples) < 4 and i % 60 == 0 and k == 0:
+                        o.samples.append({"case": c[:300], "impl": impl[i + k][:300]})
                 if g is None:
-                    o.violations.append({"case": c, "impl": impl[i + k][:200], "why": "serve scenario crashed: " + impl[i + k][:60]}); continue
+                    bad.append(i + k)
+                    if record:
+                        o.violations.append({"case": c, "impl": impl[i + k][:200], "why": "serve scenario crashed: " + impl[i + k][:60]})
+                    continue
                 why = None
                 if pid == "C16":
                     want = expected_hooks(conns)
@@ -189,9 +210,11 @@ def run(pid):
                         why = "mode %s, connection %d: transcript %s differs from the specification %s" % (m, j, (g["tr"][j] if j < len(g["tr"]) else "-")[:80], want_tr[j][:80])
                     elif group[0] is not None and g["tr"] != group[0]["tr"]:
                         why = "mode %s answers differently from mode serve" % m
-                if why and len(o.violations) < 30:
-                    o.violations.append({"case": c, "impl": impl[i + k][:300], "why": why})
-    return run_
+                if why:
+                    bad.append(i + k)
+                    if record and len(o.violations) < 30:
+                        o.violations.append({"case": c, "impl": impl[i + k][:300], "why": why})
+    return bad
 
 
 def known_c16(o, ctx, k):
